@@ -160,8 +160,24 @@ def check(ctx: Ctx) -> None:
         rets = [p for p in paths if p.kind == "return"]
         if len(paths) != 1 or len(rets) != 1:
             raise AnalysisError(f"{ed.cls}._impedance: expected one straight-line path, found {len(paths)}")
-        numt = canon(rets[0].value)
-        verdict, wit = equal_terms(numt, eq, rng, k=k_points, ranges=param_ranges(ed))
+        numt_raw = sp.sympify(rets[0].value)
+        verdict, wit = None, None
+        if numt_raw.has(sp.Piecewise):
+            # a case distinction on the parameters (e.g. a fast path for an ideal exponent): every case is compared with
+            # the equation under its own condition — an equality case by substitution, the remaining case generically
+            for sub, branch in _cases(numt_raw, ed.cls):
+                v_, w_ = equal_terms(canon(branch.subs(sub)), canon(eq.subs(sub)), rng, k=k_points, ranges=param_ranges(ed))
+                ctx.instance("R2.1", f"{ed.cls} case {({str(k_): str(x_) for k_, x_ in sub.items()} or 'otherwise')}: {v_}")
+                if v_ == "different":
+                    verdict, wit = v_, dict(w_ or {}, case={str(k_): str(x_) for k_, x_ in sub.items()})
+                    break
+                if v_ == "unknown":
+                    verdict = v_
+                verdict = verdict or v_
+            numt = numt_raw
+        else:
+            numt = canon(numt_raw)
+            verdict, wit = equal_terms(numt, eq, rng, k=k_points, ranges=param_ranges(ed))
         verdict_counts[verdict] = verdict_counts.get(verdict, 0) + 1
         ctx.sample({"element": ed.cls, "numeric_term": str(numt)[:160], "equation_term": str(eq)[:160], "verdict": verdict})
         if verdict == "different":
@@ -193,6 +209,26 @@ def check(ctx: Ctx) -> None:
 
 
 # ---------------------------------------------------------------------------
+
+def _cases(expr, who: str):
+    folded = sp.piecewise_fold(expr)
+    if not isinstance(folded, sp.Piecewise):
+        raise AnalysisError(f"{who}._impedance: case distinction could not be brought to the top level")
+    out = []
+    for e, c in folded.args:
+        sub = {}
+        for part in (c.args if isinstance(c, sp.And) else [c]):
+            if part == sp.true or isinstance(part, sp.Ne):
+                continue
+            if isinstance(part, sp.Eq) and isinstance(part.lhs, sp.Symbol) and part.rhs.is_number:
+                sub[part.lhs] = part.rhs
+            elif isinstance(part, sp.Eq) and isinstance(part.rhs, sp.Symbol) and part.lhs.is_number:
+                sub[part.rhs] = part.lhs
+            else:
+                raise AnalysisError(f"{who}._impedance: case condition {part} is not an equality of a parameter with a constant")
+        out.append((sub, e))
+    return out
+
 
 def _check_limit(ctx: Ctx, model) -> None:
     fi = model.fi(BASE, "_calculate_limit")
